@@ -10,6 +10,9 @@
 import IocProofs.Lemmas.Scan
 import IocProofs.Lemmas.ScanHand
 import IocProofs.Lemmas.ScanValue
+import IocProofs.Lemmas.ScanHolder
+import IocProofs.Lemmas.ScanHolderCode
+import Ioc.Generated.Facts
 import IocProofs.Lemmas.SemScanFields
 import IocProofs.Lemmas.ScanCode
 import IocProofs.Lemmas.TagScanLink
@@ -152,6 +155,136 @@ theorem C11_code_handed (procs : List Nat) (all : Go.Val) (ret : Nat → Go.Val 
     Go.run (Sem.handPrims procs all ret) Progs.del_ResolveAfterInstantiation [.str "meta", .str "n"] [] =
       some (.nil, procs.map (fun p => (p, all))) := by
   simpa using Sem.resolveAfterInstantiation_hands_all procs all ret []
+
+/-! ### a component that is ITSELF a post-processor is populated by the processors sorted ahead of it
+
+    `Scan.populateLoop` is the registration loop of InvokeBeanFactoryPostProcessors: a non-lazy raw processor is created — and
+    populated, as a component — by `GetComponentByName` inside the loop, under `f.componentPostProcessors` as it is then. -/
+
+/-- The chain every ordinary component is populated by (created after the loop): what was registered before, then every raw
+    processor in sorted order. -/
+theorem C11_register_final {α : Type} (sorted : List (RawPP α)) (cpp : List α) :
+    finalChain sorted cpp = cpp ++ sorted.map (·.id) :=
+  populateLoop_final sorted cpp
+
+/-- A non-lazy processor is populated by exactly the processors sorted AHEAD of it (behind whatever was registered before);
+    a lazy one is never populated by the loop. -/
+theorem C11_holder_chain {α : Type} [DecidableEq α] (pre post : List (RawPP α)) (p : RawPP α) (cpp : List α)
+    (hpre : ∀ q ∈ pre, q.id ≠ p.id) :
+    (p.lazy = false → populatedBy (pre ++ p :: post) cpp p.id = some (cpp ++ pre.map (·.id))) ∧
+    (p.lazy = true → (∀ q ∈ post, q.id ≠ p.id) → populatedBy (pre ++ p :: post) cpp p.id = none) := by
+  refine ⟨fun hlz => populatedBy_split pre post p cpp hlz hpre, fun hlz hpost => populatedBy_none _ cpp p.id ?_⟩
+  intro q hq hid
+  simp only [List.mem_append, List.mem_cons] at hq
+  rcases hq with hq | rfl | hq
+  · exact absurd hid (hpre q hq)
+  · exact hlz
+  · exact absurd hid (hpost q hq)
+
+/-- …each of which is handed ALL properties of the holder, like those of any component (C11_handed_all), whatever the others
+    return; the holder itself and the processors sorted BEHIND it are the rest of the final chain: they serve every ordinary
+    component and not the holder. -/
+theorem C11_holder_served_by_prefix {α : Type} (pre post : List (RawPP α)) (p : RawPP α) (cpp : List α)
+    (all : List Property) (ret : α → PropsRet) :
+    finalChain (pre ++ p :: post) cpp = (cpp ++ pre.map (·.id)) ++ p.id :: post.map (·.id) ∧
+    handedLoop all ((finalChain (pre ++ p :: post) cpp).map ret) =
+      handedLoop all ((cpp ++ pre.map (·.id)).map ret) ++ handedLoop all ((p.id :: post.map (·.id)).map ret) := by
+  have hf : finalChain (pre ++ p :: post) cpp = (cpp ++ pre.map (·.id)) ++ p.id :: post.map (·.id) := by
+    simp [finalChain, populateLoop_final, List.append_assoc]
+  refine ⟨hf, ?_⟩
+  rw [hf, handedLoop_eq, handedLoop_eq, handedLoop_eq, List.map_append, List.map_append]
+
+/-- PROCESSED LIKE ANY COMPONENT.  Raw processors `l` (distinct), sorted by SortOrderedComponents under ANY `sort.Slice` meeting
+    the contract (C12's SortSpec).  A non-lazy holder `h` that the ordering contract lets ahead of no other processor — it is the
+    only one that is not Ordered; or it is Ordered, no Priority, with an Order() above every other one and nobody is un-Ordered —
+    is populated by EVERY other processor: its chain followed by itself is the final chain, the one every ordinary component
+    is populated by.  So each of its recognised tagged fields, direct or embedded, meets the same processors as on a plain holder. -/
+theorem C11_holder_like_plain {α : Type} [DecidableEq α] {part : α → Order.Part}
+    {sort : (α → α → Bool) → List α → List α} (hs : Order.SortSpec part sort)
+    (l : List α) (hn : l.Nodup) (lazy : α → Bool) (h : α) (hh : h ∈ l) (hlz : lazy h = false)
+    (hlast : ∀ y ∈ l, y ≠ h → ¬ Order.Precedes part h y) :
+    ∃ chain, populatedBy ((Order.sortOrdered sort part l).map fun x => ⟨x, lazy x⟩) [] h = some chain ∧
+      finalChain ((Order.sortOrdered sort part l).map fun x => ⟨x, lazy x⟩) [] = chain ++ [h] ∧
+      ∀ y ∈ l, y ≠ h → y ∈ chain := by
+  obtain ⟨pre, hsorted, hall⟩ := sortOrdered_last hs l hn h hh hlast
+  have hnd : (pre ++ [h]).Nodup := by
+    rw [← hsorted]; exact (Order.sortOrdered_perm hs l).nodup_iff.2 hn
+  have hnot : h ∉ pre := by
+    intro hm
+    have := (List.nodup_append.1 hnd).2.2 h hm h (by simp)
+    exact this rfl
+  refine ⟨pre, ?_, ?_, hall⟩
+  · rw [hsorted, List.map_append]
+    have := populatedBy_split (pre.map fun x => (⟨x, lazy x⟩ : RawPP α)) [] ⟨h, lazy h⟩ [] hlz (by
+      intro q hq
+      obtain ⟨x, hx, rfl⟩ := List.mem_map.1 hq
+      intro e
+      have hxe : x = h := e
+      exact hnot (hxe ▸ hx))
+    simpa [List.map_map, Function.comp_def] using this
+  · rw [hsorted]
+    simp [finalChain, populateLoop_final, List.map_map, Function.comp_def]
+
+/-- The tie of `populateLoop` to the code.  `Progs.del_InvokeBeanFactoryPostProcessors` is the syntax tree of
+    InvokeBeanFactoryPostProcessors, re-translated from /repo's source on every run.  Run by the MiniGo interpreter under
+    Ioc.SemDelegate's interpretation with ONE record added — `factory.GetComponentByName` notes `self.componentPostProcessors` as
+    it is at the call, the chain the processor is created and populated by — for every list of factory processors, every raw
+    list, every result `sorted` of the sort, every LazyInit answer (GetComponentByName returning the processor asked for):
+    the program records, for every non-lazy processor, exactly `populateLoop`'s chain, and leaves `finalChain` registered.
+    (A rewrite that collects into a local slice and publishes the field after the loop records the chain of BEFORE the loop for
+    every processor — it changes the term this theorem is about.) -/
+theorem C11_code_populated_under (fprocs raw sorted cpp0 : List Nat) (lazy isCPP : Nat → Bool) :
+    Go.run (Sem.popPrims (fun _ => false) false sorted lazy (fun p => some p) isCPP) Progs.del_InvokeBeanFactoryPostProcessors
+        [.str "factory", .list (fprocs.map Sem.encP)] { raw := .list (raw.map Sem.encP), cpp := cpp0.map Sem.encP } =
+      some (.nil,
+        { fcalls := fprocs, defReg := true, raw := .nil,
+          cpp := (finalChain (sorted.map fun p => ⟨p, lazy p⟩) cpp0).map Sem.encP,
+          pops := (populateLoop (sorted.map fun p => ⟨p, lazy p⟩) cpp0).1.map Sem.encPop }) := by
+  rw [Sem.invoke_populates_sem]
+  have hrun : Order.runLoop (fun _ : Nat => false) fprocs [] = (fprocs, false) := by
+    rw [Order.runLoop_eq, Order.takeUntil_all _ _ (fun _ _ => rfl)]; simp
+  simp [Sem.popInvokeModel, hrun, Sem.popModel_is_populateLoop, finalChain]
+
+section holderExamples
+open Ioc.Order
+
+/-- the harness' runs of this kind: the ten built-in processors (Priority, LazyInit, Order() regenerated from /repo), the
+    ordered lazy recorder (index 10, Order() = 50), the holder (index 11) -/
+private def exPart (holder : Part) (i : Nat) : Part :=
+  ((Facts.builtinProcessors.map fun f => Part.ofIfaces (some f.order) f.priority) ++ [.ord 50, holder]).getD i .plain
+private def exLazy (i : Nat) : Bool :=
+  ((Facts.builtinProcessors.map (·.lazy)) ++ [true, false]).getD i false
+private def exChain (holder : Part) : Option (List Nat) :=
+  populatedBy ((sortOrdered (fun lt l => isort lt l) (exPart holder) (List.range 12)).map fun x => ⟨x, exLazy x⟩) [] 11
+
+instance {α : Type} (part : α → Part) (x y : α) : Decidable (Precedes part x y) := by
+  unfold Precedes; exact inferInstance
+
+-- the hypotheses of C11_holder_like_plain hold for a holder that is not Ordered, and for an Ordered one behind the recorder …
+example : (List.range 12).Nodup ∧ 11 ∈ List.range 12 ∧ exLazy 11 = false ∧
+    (∀ y ∈ List.range 12, y ≠ 11 → ¬ Precedes (exPart .plain) 11 y) ∧
+    (∀ y ∈ List.range 12, y ≠ 11 → ¬ Precedes (exPart (.ord 100)) 11 y) := by decide
+-- … and the driver's sort shows the conclusion: all eleven others, the recorder included, populate the holder
+example : ((exChain .plain).map fun c => (c.length, c.contains 10, (List.range 11).all c.contains)) = some (11, true, true) ∧
+    ((exChain (.ord 51)).map fun c => (c.length, c.contains 10)) = some (11, true) := by decide
+-- the limit (NOT a hypothesis-free statement): a holder Ordered ahead of a built-in processor, or priority-ordered, is populated
+-- without the processors sorted behind it — the priority-ordered one below by the four priority-ordered built-ins of a smaller
+-- Order() only, a holder with the smallest priority Order() by nobody
+example : ((exChain (.prio 100)).map fun c => (c.length, c.contains 10)) = some (5, false) ∧
+    exChain (.prio 1) = some [] ∧ ((exChain (.ord 3)).map (·.length)) = some 8 := by decide
+-- C11_holder_chain on a lazy processor: never populated by the loop
+example : populatedBy [⟨0, true⟩, ⟨1, false⟩, ⟨2, true⟩] [] 2 = none ∧
+    populatedBy [⟨0, true⟩, ⟨1, false⟩, ⟨2, true⟩] [] 1 = some [0] := by decide
+-- C11_code_populated_under on four raw processors (1 and 3 non-lazy), one processor registered before: the regenerated program
+-- creates 1 under [9, 0] and 3 under [9, 0, 1, 2]
+example : Go.run (Sem.popPrims (fun _ => false) false [0, 1, 2, 3] (fun p => p % 2 == 0) (fun p => some p) (fun _ => true))
+      Progs.del_InvokeBeanFactoryPostProcessors [.str "factory", .list []]
+      { raw := .list ([3, 2, 1, 0].map Sem.encP), cpp := [9].map Sem.encP } =
+    some (.nil, { fcalls := [], defReg := true, raw := .nil, cpp := [9, 0, 1, 2, 3].map Sem.encP,
+                  pops := [(1, [9, 0].map Sem.encP), (3, [9, 0, 1, 2].map Sem.encP)] }) := by
+  have := C11_code_populated_under [] [3, 2, 1, 0] [0, 1, 2, 3] [9] (fun p => p % 2 == 0) (fun _ => true)
+  simpa [finalChain, populateLoop, Sem.encPop] using this
+end holderExamples
 
 /-! ### non-vacuity: a depth-3 shape with every kind of leaf -/
 
